@@ -488,14 +488,20 @@ def default_row_labels(ctx, rule):
     model = ctx.model
     pi = model.func('Plate.__init__')
     loops = []
-    for lp in ast.walk(pi.node):
-        if isinstance(lp, (ast.While, ast.For)):
-            src = unparse(lp, 2000)
-            if '26' in src and ('//' in src or 'divmod' in src) and 'chr(' in src:
-                loops.append(lp)
+    # the loop may sit in Plate.__init__ or in a helper it was moved to
+    for fi_ in [pi] + [f for f in model.functions('pyplate/pyplate.py') if f is not pi]:
+        for lp in ast.walk(fi_.node):
+            if isinstance(lp, (ast.While, ast.For)):
+                src = unparse(lp, 2000)
+                inner = [x for x in ast.walk(lp) if isinstance(x, (ast.While, ast.For)) and x is not lp and
+                         '26' in unparse(x, 2000) and 'chr(' in unparse(x, 2000)]
+                if '26' in src and ('//' in src or 'divmod' in src) and 'chr(' in src and not inner:
+                    loops.append((fi_, lp))
+        if loops:
+            break
     if not loops:
-        raise AnalysisError('Plate.__init__: the loop producing default row labels was not found')
-    lp = loops[-1]      # innermost-last in walk order is fine: there is one such loop
+        raise AnalysisError('the loop producing default row labels was not found')
+    pi, lp = loops[-1]
     acc, order = None, None
     for st in ast.walk(lp):
         if isinstance(st, ast.Call) and isinstance(st.func, ast.Attribute) and isinstance(st.func.value, ast.Name):
@@ -519,7 +525,7 @@ def default_row_labels(ctx, rule):
     # in the enclosing loop body)
     reversals = 0
     parent = getattr(lp, 'parent', None)
-    scope = parent if parent is not None else pi.node
+    scope = parent if isinstance(parent, (ast.For, ast.While)) else pi.node
     for x in ast.walk(scope):
         if any(y is x for y in ast.walk(lp)):
             continue
